@@ -2,6 +2,7 @@ package main
 
 import (
 	"context"
+	"errors"
 	"fmt"
 	"hash/fnv"
 	"math/rand/v2"
@@ -65,7 +66,14 @@ func (c *checkedS3) judge(kind, key string, rng *storage.ByteRange, from int, da
 		return
 	}
 	if err != nil {
-		return // "or the primary's error": an error is never wrong data
+		// an error is never wrong data - but "the same bytes as the primary would return" also means that a
+		// replica that is missing the object or failing must not turn into a failed read while the primary
+		// (never faulted on reads in this world) holds the object
+		if _, ok := w.s3.Peek(key); ok && !errors.Is(err, context.Canceled) && !errors.Is(err, context.DeadlineExceeded) {
+			w.sim.Probe("c44.read-error-judged")
+			w.sim.Fail("C44", "replica-failure-surfaced", "%s of %s failed with %v although the primary bucket holds the object and served no error", kind, key, err)
+		}
+		return
 	}
 	w.sim.Probe("c44.download-judged")
 	want := func(body []byte) []byte {
